@@ -42,10 +42,12 @@ def gen_project(rng, stream="structured", n_tasks=None, facilities=None, fs_only
         pos = order[k]
         work = rng.choice([Fraction(0), Fraction(1, 8), Fraction(1, 2), Fraction(1), Fraction(1), Fraction(2),
                            Fraction(3), Fraction(5, 2), Fraction(4), Fraction(6)])
-        if rng.random() < 0.04:
-            work = work + Fraction(1, 2 ** 30)          # a hair more than the grid: finishing is a tolerance test
+        if rng.random() < 0.05:
+            # a hair more than the grid: finishing is a tolerance test (2^-30 is above the tolerance 1e-10:
+            # one more step; 2^-40 is below it: finished with that residue)
+            work = work + rng.choice([Fraction(1, 2 ** 30), Fraction(1, 2 ** 30), Fraction(1, 2 ** 40)])
         prog = rng.choice([Fraction(0)] * 16 + [Fraction(1, 4), Fraction(1, 2), Fraction(1, 4), Fraction(1, 2), Fraction(1), Fraction(1),
-                           Fraction(7, 8), Fraction(15, 16), 1 - Fraction(1, 2 ** 30)])   # "already complete" is a tolerance test too
+                           Fraction(7, 8), Fraction(15, 16), 1 - Fraction(1, 2 ** 30), 1 - Fraction(1, 2 ** 40)])   # "already complete" is a tolerance test too (the last one is complete)
         auto = rng.random() < (0.12 if stream != "contention" else 0.0)
         if prog.denominator > 16 and work.denominator > 8:
             work = Fraction(round(work))          # not both off the grid: their product must stay exact in binary64
@@ -103,6 +105,8 @@ def gen_project(rng, stream="structured", n_tasks=None, facilities=None, fs_only
                     skills[str(nm)] = "0/1"
                 elif r < 0.72:
                     skills[str(nm)] = "-1/2"        # a negative entry is no skill
+                elif r < 0.735:
+                    skills[str(nm)] = qs(Fraction(1, 2 ** 40))      # positive but below the tolerance: no skill either
             ws.append({"skills": skills, "fskills": {}, "cost": qs(rng.choice([Fraction(0), Fraction(1), Fraction(5, 2), Fraction(10), Fraction(1), Fraction(5, 2), Fraction(1, 2 ** 40)])),
                        "solo": rng.random() < 0.12, "abs": [], "mainwp": None})
         teams.append({"workers": ws})
@@ -123,11 +127,15 @@ def gen_project(rng, stream="structured", n_tasks=None, facilities=None, fs_only
                         skills[str(nm)] = "0/1"
                     elif r < 0.74:
                         skills[str(nm)] = "-1/2"
+                    elif r < 0.755:
+                        skills[str(nm)] = qs(Fraction(1, 2 ** 40))
                 fs.append({"skills": skills, "cost": qs(rng.choice([Fraction(0), Fraction(1), Fraction(3), Fraction(1), Fraction(3), Fraction(1, 2 ** 40)])),
                            "solo": rng.random() < 0.1, "abs": []})
             total = sum(Fraction(c["size"]) for c in comps) or Fraction(1)
             cap = rng.choice([total, total, Fraction(1), Fraction(2), Fraction(3, 2), total / 2 if (total / 2 * 8).denominator == 1 else Fraction(1),
-                              total, Fraction(2), Fraction(0) if pi > 0 else total])
+                              total, Fraction(2), Fraction(0) if pi > 0 else total,
+                              total - Fraction(1, 2 ** 30),      # short by less than the space tolerance 1e-8: everything fits
+                              total - Fraction(1, 2 ** 20)])     # short by more: it does not
             wps.append({"cap": qs(cap), "inputs": [], "facs": fs})
         for pi in range(nwp):
             if rng.random() < 0.25:
